@@ -367,6 +367,30 @@ theorem glue_eq (L : Lib) (a b c : String) :
       splitImpl, regexReplaceImpl, chompImpl]
   cases L.regexCompile b <;> rfl
 
+/-- `join` concatenates the members of a list of known strings with the separator
+(`strings.Join`), then re-normalises. -/
+theorem join_spec (L : Lib) (sep : String) (xs : List String) :
+    joinImpl L [sv sep, ⟨.list .string, .seq (xs.map Payload.s)⟩] = .ok (stringVal L.nfc (sep.intercalate xs)) := by
+  simp [joinImpl, joinCollect, joinItems_strings, Value.whollyKnown, Payload.whollyKnown, whollyKnownL_strings,
+    Value.isNull, Payload.isNull, Payload.unmark1, Res.map]
+
+/-- … and a null member is the documented error. -/
+theorem join_null_member (L : Lib) (sep : String) (xs ys : List String) :
+    joinImpl L [sv sep, ⟨.list .string, .seq (xs.map Payload.s ++ Payload.null :: ys.map Payload.s)⟩] =
+      .err "element is null; cannot concatenate null values" := by
+  have hj : ∀ xs : List String, joinItems (xs.map Payload.s ++ Payload.null :: ys.map Payload.s) = none := by
+    intro xs
+    induction xs with
+    | nil => rfl
+    | cons x xs ih => simp [joinItems, ih]
+  have hw : ∀ xs : List String, Payload.whollyKnownL (xs.map Payload.s ++ Payload.null :: ys.map Payload.s) = true := by
+    intro xs
+    induction xs with
+    | nil => simp [Payload.whollyKnownL, Payload.whollyKnown, whollyKnownL_strings]
+    | cons x xs ih => simp [Payload.whollyKnownL, Payload.whollyKnown, ih]
+  simp [joinImpl, joinCollect, hj, Value.whollyKnown, Payload.whollyKnown, hw, Value.isNull, Payload.isNull,
+    Payload.unmark1]
+
 /-- `glue_total`: on known string arguments the cty layer of these functions adds no
 panic, whatever the libraries answer. -/
 theorem glue_total (L : Lib) (a b c : String) :
